@@ -16,6 +16,7 @@ func init() {
 func runC19(c *Ctx) {
 	defer checkParamsUsed(c, "C19-R1", "internal/parser.NewParser")
 	defer c19AliasSharedByBothModes(c)
+	defer c19RecognitionIsStructural(c)
 	p := c.P
 	c.Rule("C19-R1", "single rule constructor shared by both modes", 5)
 	c.Rule("C19-R2", "strict path delegates with zero displacement and the live line table", 9)
@@ -1040,4 +1041,56 @@ func c19AliasSharedByBothModes(c *Ctx) {
 			"this function follows a yaml alias and is reachable from "+map[bool]string{true: "strict", false: "relaxed"}[rs[fi]]+" mode only: a group or field written as an alias is parsed in one mode and not in the other, so the two modes no longer find the same rules")
 	}
 	c.Check(n >= 1, R, "alias-resolving functions of internal/parser enumerated", token.NoPos, itoa(n), "no function reads yaml.Node.Alias")
+}
+
+// c19RecognitionIsStructural: relaxed mode decides that a mapping is a rule
+// group from its STRUCTURE — it has a name and a rules list — exactly as strict
+// mode reads the same mapping. tryParseGroup never answers "not a group"
+// because of the value of an optional attribute (interval, limit, query_offset,
+// labels, …): inside the case of such a key there is no return, and the final
+// verdict does not read what those cases stored. A limit written as `1_000` or
+// `0x10` is a YAML integer strict mode accepts; relaxed mode must not drop the
+// group's rules over it.
+func c19RecognitionIsStructural(c *Ctx) {
+	R := "C19-R4"
+	fi := c.MustFunc(R, "internal/parser.tryParseGroup")
+	if fi == nil {
+		return
+	}
+	info := fi.Pkg.TypesInfo
+	structural := map[string]bool{"name": true, "rules": true}
+	n, bad := 0, ""
+	badPos := fi.Decl.Pos()
+	ast.Inspect(fi.Decl.Body, func(nd ast.Node) bool {
+		cc, ok := nd.(*ast.CaseClause)
+		if !ok || len(cc.List) == 0 {
+			return true
+		}
+		optional := false
+		for _, e := range cc.List {
+			if v, isC := constString(info, e); isC && !structural[v] {
+				optional = true
+			}
+		}
+		if !optional {
+			return true
+		}
+		n++
+		for _, st := range cc.Body {
+			inspectNoLit(st, func(m ast.Node) bool {
+				switch x := m.(type) {
+				case *ast.ReturnStmt:
+					bad, badPos = "a return in the case of "+exprStr(cc.List[0]), x.Pos()
+				case *ast.BranchStmt:
+					if x.Tok == token.GOTO || (x.Tok == token.BREAK && x.Label != nil) {
+						bad, badPos = "a jump out of the key loop in the case of "+exprStr(cc.List[0]), x.Pos()
+					}
+				}
+				return true
+			})
+		}
+		return true
+	})
+	c.Check(n >= 3 && bad == "", R, "tryParseGroup:optional attributes never decide whether a mapping is a group", badPos, itoa(n)+" optional keys, none leaves the function",
+		bad+" lets the value of an optional group attribute decide that the mapping is not a rule group: relaxed mode then drops every rule of a group that strict mode parses (a `limit` written in a YAML integer notation strconv.Atoi does not read, say)")
 }
